@@ -193,7 +193,7 @@ def run_concrete(left, right, env, b: Bounds):
     return L, R, compare_concrete(L, R)
 
 
-def check_equiv(left, right, b: Bounds = QUICK, event_filter=None, want_events=False) -> EquivResult:
+def check_equiv(left, right, b: Bounds = QUICK, event_filter=None, want_events=False, mem0=None) -> EquivResult:
     """For all inputs within bounds: traces of left and right agree.  Confirmed divergences only."""
     res = EquivResult()
     t0 = time.time()
@@ -205,6 +205,8 @@ def check_equiv(left, right, b: Bounds = QUICK, event_filter=None, want_events=F
             break
         prefix = ctx.work.pop()
         ctx.begin_run(prefix)
+        if mem0:
+            _bind_mem0(ctx, mem0)
         res.paths += 1
         try:
             L = left.run(ctx, b)
@@ -279,6 +281,15 @@ def check_equiv(left, right, b: Bounds = QUICK, event_filter=None, want_events=F
     res.stats.paths = res.paths
     res.wall_s = time.time() - t0
     return res
+
+
+def _bind_mem0(ctx, mem0):
+    """Assume initial own-stack cells hold given numbers (C03 propagation twin)."""
+    for addr, val in mem0.items():
+        f = z3.Function("R_mem0", sym.R, sym.R, sym.R)
+        t = f(sym.to_z3(float(addr)), sym.to_z3(0.0))
+        ctx.bindings[t.get_id()] = (t, float(val))
+        ctx.solver.add(t == sym.to_z3(float(val)))
 
 
 def _event_env(ctx):
